@@ -631,6 +631,7 @@ func settle(marker string, barrier func(), outstanding func() int, fresh bool) b
 			}
 		}
 		if time.Now().After(deadline) {
+			strandedTimeout = 50 * time.Millisecond // the run has failed; do not wait again
 			return false
 		}
 		if spin < 50 {
